@@ -238,7 +238,7 @@ def cases(max_ops):
 def run(ctx):
     if ctx.k == 0:
         heatext.selftest()
-    n = ctx.share(1600 if ctx.quick else 16000)
+    n = ctx.share(4000 if ctx.quick else 32000)
     explore(ctx, cases(20 if ctx.quick else 40), body, n)
 
 
